@@ -29,7 +29,7 @@ CLASS_SETS_T = CLASS_SETS_Q + [["DE", "DE", "DE"], ["TE", "TE", "TE"], ["SU", "T
                                ["DE", "UE", "TE", "SD"], ["TE", "UE", "DE", "DE"], ["SU", "SD", "TE", "TE"]]
 BOUNDS = {"quick": {"vertices": 3, "links": 3, "class_multisets": len(CLASS_SETS_Q)},
           "thorough": {"vertices": 3, "links": "3-4", "class_multisets": len(CLASS_SETS_T)}}
-TIME_BUDGET = {"quick": 300, "thorough": 2400}
+TIME_BUDGET = {"quick": 300, "thorough": 1200}
 STUBS = ["filterfunc -> uninterpreted function ff(link, other_end): Bool", "uuid.uuid4 -> fresh distinct integer"]
 ASSUMPTIONS = [
     "direction_sensitive and unknown_handling range over the three documented constants {0,1,2}",
